@@ -356,7 +356,15 @@ func TestC01RoundTrip(t *testing.T) {
 				// schema has one (Resources collections may mix types).
 				ots := &ss.Types[rapid.IntRange(0, len(ss.Types)-1).Draw(t, "othertype")]
 				other := gen.NewResource(ots)
-				other.Set("id", id+"-other")
+				otherID := id + "-other"
+
+				// Two members may carry the same ID (two resources that have
+				// none yet, a list that shows a row twice).
+				if rapid.IntRange(0, 2).Draw(t, "sameid") == 0 {
+					otherID = id
+				}
+
+				other.Set("id", otherID)
 
 				col := &jsonapi.Resources{}
 				col.Add(other)
@@ -376,8 +384,8 @@ func TestC01RoundTrip(t *testing.T) {
 							// the member in front is still what it was
 							if f := c.At(0); f == nil {
 								firstMember = "the member in front of it came back as nil"
-							} else if f.GetType().Name != ots.Name || f.Get("id") != id+"-other" {
-								firstMember = fmt.Sprintf("the member in front of it (type %q, id %q) came back with type %q and id %q", ots.Name, id+"-other", f.GetType().Name, f.Get("id"))
+							} else if f.GetType().Name != ots.Name || f.Get("id") != otherID {
+								firstMember = fmt.Sprintf("the member in front of it (type %q, id %q) came back with type %q and id %q", ots.Name, otherID, f.GetType().Name, f.Get("id"))
 							}
 						}
 					}
